@@ -60,36 +60,54 @@ theorem mem_killTargets (tasks : List Task) (t : Task) :
   rw [List.mem_filter]
   cases t.deletionTimestamp <;> cases isTaskFinished t <;> simp
 
-theorem handleKillJob_eq (s : Sys) (rj : Job) (tasks : List Task) :
-    handleKillJob s rj tasks =
+theorem handleKillJob_eq (s : Sys) (jo : JobObj) (rj : Job) (tasks : List Task) :
+    handleKillJob s jo rj tasks =
       if shouldKillJob s.clock rj = true then
         if (killTargets tasks).isEmpty = true then (s, some rj)
         else ((deleteTasks s (killTargets tasks) false).1,
               if (deleteTasks s (killTargets tasks) false).2 = true then some (killMark rj tasks) else none)
-      else (s, some rj) := by
+      else match rj.killTimestamp with
+        | some ts => (enqueueAfter s (jobKey jo) ts, some rj)
+        | none => (s, some rj) := by
   unfold handleKillJob
   cases shouldKillJob s.clock rj <;> rfl
 
+/-- the kill step when the Job is not to be killed (yet): no call, the Job is returned as it is,
+and a kill timestamp that is still in the future arms a timer for it -/
+theorem handleKillJob_not (s : Sys) (jo : JobObj) (rj : Job) (tasks : List Task)
+    (hk : shouldKillJob s.clock rj = false) :
+    handleKillJob s jo rj tasks =
+      (match rj.killTimestamp with
+        | some ts => enqueueAfter s (jobKey jo) ts
+        | none => s, some rj) := by
+  rw [handleKillJob_eq, if_neg (by simp [hk])]
+  cases rj.killTimestamp <;> rfl
+
 /-- `handleKillJob`: the calls it appends are non-forced pod deletes, one per unfinished task
-without deletion timestamp, issued only when `shouldKillJob` holds; it arms no timer. -/
-theorem handleKillJob_ext (s : Sys) (rj : Job) (tasks : List Task) :
-    ∃ l, Ext s (handleKillJob s rj tasks).1 l ∧ (handleKillJob s rj tasks).1.q = s.q ∧
+without deletion timestamp, issued only when `shouldKillJob` holds; it arms no timer then, and
+when the Job is not to be killed its only effect is the timer for a future kill timestamp. -/
+theorem handleKillJob_ext (s : Sys) (jo : JobObj) (rj : Job) (tasks : List Task) :
+    ∃ l, Ext s (handleKillJob s jo rj tasks).1 l ∧
+      (((shouldKillJob s.clock rj = true ∨ rj.killTimestamp = none) → (handleKillJob s jo rj tasks).1.q = s.q) ∧
+        (shouldKillJob s.clock rj = false → ∀ ts, rj.killTimestamp = some ts →
+          handleKillJob s jo rj tasks = (enqueueAfter s (jobKey jo) ts, some rj))) ∧
       (∀ c ∈ l, c.verb = "delete" ∧ c.res = "pods" ∧ c.force = false ∧ shouldKillJob s.clock rj = true ∧
         ∃ t ∈ tasks, t.name = c.name ∧ isTaskFinished t = false ∧ t.deletionTimestamp = none) ∧
       (shouldKillJob s.clock rj = true →
         (∀ t ∈ tasks, isTaskFinished t = false → t.deletionTimestamp = none → ∃ c ∈ l, c.name = t.name) ∧
-        (∀ rj', (handleKillJob s rj tasks).2 = some rj' → rj' = killMark rj tasks) ∧
-        (NoFault s → (handleKillJob s rj tasks).2 = some (killMark rj tasks) ∧
+        (∀ rj', (handleKillJob s jo rj tasks).2 = some rj' → rj' = killMark rj tasks) ∧
+        (NoFault s → (handleKillJob s jo rj tasks).2 = some (killMark rj tasks) ∧
           ∀ c ∈ l, c.out = "ok" ∨ c.out = "notfound")) := by
-  rw [handleKillJob_eq]
   by_cases hk : shouldKillJob s.clock rj = true
-  · rw [if_pos hk]
+  · rw [handleKillJob_eq, if_pos hk]
+    have hq2 : ∀ x : Sys × Option Job, shouldKillJob s.clock rj = false → ∀ ts, rj.killTimestamp = some ts →
+        x = (enqueueAfter s (jobKey jo) ts, some rj) := fun _ h => by rw [hk] at h; cases h
     by_cases he : (killTargets tasks).isEmpty = true
     · rw [if_pos he]
       have hnil : killTargets tasks = [] := by simpa using he
       have hmark : killMark rj tasks = rj := by
         unfold killMark; rw [hnil]; exact markDeleted_nil _ _
-      refine ⟨[], Ext.refl s, rfl, by simp, fun _ => ⟨?_, ?_, ?_⟩⟩
+      refine ⟨[], Ext.refl s, ⟨fun _ => rfl, hq2 _⟩, by simp, fun _ => ⟨?_, ?_, ?_⟩⟩
       · intro t ht hf hd
         have : t ∈ killTargets tasks := (mem_killTargets tasks t).mpr ⟨ht, hf, hd⟩
         rw [hnil] at this; cases this
@@ -101,7 +119,7 @@ theorem handleKillJob_ext (s : Sys) (rj : Job) (tasks : List Task) :
         exact ⟨rfl, by simp⟩
     · rw [if_neg he]
       obtain ⟨l, hext, hall, hcov, hq, hnf⟩ := deleteTasks_ext s (killTargets tasks) false
-      refine ⟨l, hext, hq, ?_, fun _ => ⟨?_, ?_, ?_⟩⟩
+      refine ⟨l, hext, ⟨fun _ => hq, hq2 _⟩, ?_, fun _ => ⟨?_, ?_, ?_⟩⟩
       · intro c hc
         obtain ⟨hv, hr, hf, t, ht, hn, _⟩ := hall c hc
         obtain ⟨ht1, ht2, ht3⟩ := (mem_killTargets tasks t).mp ht
@@ -116,8 +134,16 @@ theorem handleKillJob_ext (s : Sys) (rj : Job) (tasks : List Task) :
       · intro hno
         obtain ⟨hok, _, hout⟩ := hnf hno
         exact ⟨by rw [if_pos hok], hout⟩
-  · rw [if_neg hk]
-    exact ⟨[], Ext.refl s, rfl, by simp, fun h => absurd h hk⟩
+  · have hk' : shouldKillJob s.clock rj = false := by simpa using hk
+    rw [handleKillJob_not s jo rj tasks hk']
+    cases hts : rj.killTimestamp with
+    | none =>
+      exact ⟨[], Ext.refl s, ⟨fun _ => rfl, fun _ ts h => (by cases h)⟩, by simp, fun h => absurd h hk⟩
+    | some ts =>
+      refine ⟨[], enqueueAfter_ext s (jobKey jo) ts, ⟨?_, fun _ ts' h => (by cases h; rfl)⟩, by simp, fun h => absurd h hk⟩
+      rintro (h | h)
+      · exact absurd h hk
+      · cases h
 
 theorem killMark_sameSpec (rj : Job) (tasks : List Task) : SameSpec rj (killMark rj tasks) :=
   markDeleted_sameSpec _ _ _
@@ -523,47 +549,65 @@ theorem forceMark_sameSpec (rj : Job) (F clk : Int) (tasks : List Task) : SameSp
 -- ---------------------------------------------------------------- handleTTL
 
 /-- `handleTTL`: at most one call, a Job delete, only for a finished, not-deleting Job whose
-finish time plus the effective TTL is not after the clock; no timer, no pod change -/
+finish time plus the effective TTL is not after the clock; no pod change.  When the Job is
+finished, not being deleted and NOT yet expired, its only effect is a timer for the expiry (finish
+time plus the EFFECTIVE TTL); otherwise the queue is untouched. -/
 theorem handleTTL_ext (s : Sys) (jo : JobObj) (rj : Job) :
-    ∃ l, Ext s (handleTTL s jo rj).1 l ∧ (handleTTL s jo rj).1.q = s.q ∧ (handleTTL s jo rj).1.pods = s.pods ∧
+    ∃ l, Ext s (handleTTL s jo rj).1 l ∧
+      ((∀ fin, rj.status.condition.finished = some fin → isDeleted rj = false →
+          fin.finishTimestamp.getD zeroTime + getTTLAfterFinished rj s.cfg > s.clock →
+          handleTTL s jo rj =
+            (enqueueAfter s (jobKey jo) (fin.finishTimestamp.getD zeroTime + getTTLAfterFinished rj s.cfg), true)) ∧
+        ((isDeleted rj = true ∨ rj.status.condition.finished = none ∨
+            ∃ fin, rj.status.condition.finished = some fin ∧
+              ¬ (fin.finishTimestamp.getD zeroTime + getTTLAfterFinished rj s.cfg > s.clock)) →
+          (handleTTL s jo rj).1.q = s.q)) ∧
+      (handleTTL s jo rj).1.pods = s.pods ∧
       (∀ c ∈ l, c.verb = "delete" ∧ c.res = "jobs" ∧ c.name = jo.name ∧ isDeleted rj = false ∧
         ∃ fin, rj.status.condition.finished = some fin ∧
           ¬ (fin.finishTimestamp.getD zeroTime + getTTLAfterFinished rj s.cfg > s.clock)) := by
   unfold handleTTL
   simp only
   by_cases hd : isDeleted rj = true
-  · rw [if_pos hd]; exact ⟨[], Ext.refl s, rfl, rfl, by simp⟩
+  · rw [if_pos hd]
+    exact ⟨[], Ext.refl s, ⟨fun _ _ h => (by rw [hd] at h; cases h), fun _ => rfl⟩, rfl, by simp⟩
   · rw [if_neg hd]
     cases hf : rj.status.condition.finished with
-    | none => exact ⟨[], Ext.refl s, rfl, rfl, by simp⟩
+    | none => exact ⟨[], Ext.refl s, ⟨fun _ h => (by cases h), fun _ => rfl⟩, rfl, by simp⟩
     | some fin =>
       simp only
       by_cases ht : fin.finishTimestamp.getD zeroTime + getTTLAfterFinished rj s.cfg > s.clock
-      · rw [if_pos ht]; exact ⟨[], Ext.refl s, rfl, rfl, by simp⟩
+      · rw [if_pos ht]
+        refine ⟨[], enqueueAfter_ext s _ _, ⟨fun fin' h _ _ => (by cases h; rfl), ?_⟩, rfl, by simp⟩
+        rintro (h | h | ⟨fin', h, hn⟩)
+        · exact absurd h hd
+        · cases h
+        · cases h; exact absurd ht hn
       · rw [if_neg ht]
         obtain ⟨c, hext, hv, hr, hn, hq, hp⟩ := apiDeleteJob_ext s jo
-        refine ⟨[c], hext, hq, hp, ?_⟩
+        refine ⟨[c], hext, ⟨fun fin' h _ h' => (by cases h; exact absurd h' ht), fun _ => hq⟩, hp, ?_⟩
         intro c' hc'
         rw [List.mem_singleton.mp hc']
         exact ⟨hv, hr, hn, by simpa using hd, fin, rfl, ht⟩
 
 -- ---------------------------------------------------------------- handleFinalizer
 
-/-- `handleFinalizer`: the calls it appends are non-forced pod deletes for the tasks of the status
-that could still be found (cache, else live GET), only for a Job with deletion timestamp that
-carries the finalizer; the finalizer is dropped only when no task was found. -/
+/-- `handleFinalizer`: the calls it appends are non-forced pod deletes for `finalizerTasks`: the
+tasks of the status that could still be found (cache, else live GET) and the unrecorded tasks of
+the Job in the pod cache; only for a Job with deletion timestamp that carries the finalizer; the
+finalizer is dropped only when none of them was found. -/
 theorem handleFinalizer_ext (s : Sys) (jo : JobObj) (rj : Job) (fz : Bool) :
     ∃ l, Ext s (handleFinalizer s jo rj fz).1 l ∧
       (∀ c ∈ l, c.verb = "delete" ∧ c.res = "pods" ∧ c.force = false ∧
         rj.deletionTimestamp.isSome = true ∧ fz = true ∧
-        ∃ t ∈ tasksForRefsConfirmed s rj.status.tasks, t.name = c.name ∧ DelWanted s false t) ∧
+        ∃ t ∈ finalizerTasks s jo rj, t.name = c.name ∧ DelWanted s false t) ∧
       ((rj.deletionTimestamp = none ∨ fz = false) → handleFinalizer s jo rj fz = (s, some (rj, fz))) ∧
       (rj.deletionTimestamp.isSome = true → fz = true →
-        (tasksForRefsConfirmed s rj.status.tasks ≠ [] →
-          (∀ t ∈ tasksForRefsConfirmed s rj.status.tasks, DelWanted s false t → ∃ c ∈ l, c.name = t.name) ∧
+        (finalizerTasks s jo rj ≠ [] →
+          (∀ t ∈ finalizerTasks s jo rj, DelWanted s false t → ∃ c ∈ l, c.name = t.name) ∧
           (∀ rj' f', (handleFinalizer s jo rj fz).2 = some (rj', f') → f' = true) ∧
           (NoFault s → ∃ rj', (handleFinalizer s jo rj fz).2 = some (rj', true))) ∧
-        (tasksForRefsConfirmed s rj.status.tasks = [] →
+        (finalizerTasks s jo rj = [] →
           l = [] ∧ ∃ rj', (handleFinalizer s jo rj fz).2 = some (rj', false))) := by
   unfold handleFinalizer
   cases hdt : rj.deletionTimestamp with
@@ -579,23 +623,24 @@ theorem handleFinalizer_ext (s : Sys) (jo : JobObj) (rj : Job) (fz : Bool) :
     | true =>
       simp only [Bool.not_true, Bool.false_eq_true, if_false]
       have hbad : (some dts = none ∨ true = false) → False := by rintro (h | h) <;> cases h
-      by_cases hemp : (tasksForRefsConfirmed s rj.status.tasks).isEmpty = true
-      · have hnil : tasksForRefsConfirmed s rj.status.tasks = [] := by simpa using hemp
+      generalize finalizerTasks s jo rj = ft
+      by_cases hemp : ft.isEmpty = true
+      · have hnil : ft = [] := by simpa using hemp
         simp only [hnil, List.isEmpty_nil, Bool.not_true, Bool.false_eq_true, if_false]
         obtain ⟨e1, _, _⟩ := updateTaskRefStatus_ext s (jobKey jo) rj []
         refine ⟨[], e1, by simp, fun h => (hbad h).elim, fun _ _ => ⟨fun h => absurd rfl h, fun _ => ⟨rfl, _, rfl⟩⟩⟩
       · simp only [hemp, Bool.not_false, if_true]
         generalize hrj1 : List.foldl (fun acc t => updateTaskRefDeletedStatusIfNotSet acc t.name
-          { state := .terminated, result := .killed, reason := "JobDeleted" }) rj (tasksForRefsConfirmed s rj.status.tasks) = rj1
-        obtain ⟨e1, _, p1⟩ := updateTaskRefStatus_ext s (jobKey jo) rj1 (tasksForRefsConfirmed s rj.status.tasks)
-        have hnf1 : NoFault s → NoFault (updateTaskRefStatus s (jobKey jo) rj1 (tasksForRefsConfirmed s rj.status.tasks)).1 := by
+          { state := .terminated, result := .killed, reason := "JobDeleted" }) rj ft = rj1
+        obtain ⟨e1, _, p1⟩ := updateTaskRefStatus_ext s (jobKey jo) rj1 ft
+        have hnf1 : NoFault s → NoFault (updateTaskRefStatus s (jobKey jo) rj1 ft).1 := by
           intro h
           unfold updateTaskRefStatus syncJobStatusFromTaskRefs
           repeat' split
           all_goals first | exact h | (unfold enqueueAfter; exact h)
         obtain ⟨l, e2, hall, hcov, _, hnf⟩ := deleteTasks_ext
-          (updateTaskRefStatus s (jobKey jo) rj1 (tasksForRefsConfirmed s rj.status.tasks)).1 (tasksForRefsConfirmed s rj.status.tasks) false
-        have hw : ∀ t, DelWanted (updateTaskRefStatus s (jobKey jo) rj1 (tasksForRefsConfirmed s rj.status.tasks)).1 false t ↔
+          (updateTaskRefStatus s (jobKey jo) rj1 ft).1 ft false
+        have hw : ∀ t, DelWanted (updateTaskRefStatus s (jobKey jo) rj1 ft).1 false t ↔
             DelWanted s false t := by
           intro t; unfold DelWanted; rw [e1.clock]
         refine ⟨l, (e1.trans e2).cast (by simp), ?_, fun h => (hbad h).elim, fun _ _ => ⟨fun _ => ⟨?_, ?_, ?_⟩, ?_⟩⟩
